@@ -101,6 +101,11 @@ struct Scenario
   std::function<int(World&)> call;
   int expectedNew;          // documented number of variables added to dbout on success
   std::string clashName;    // name of (one of) the documented output variable(s), used by the "name clash" prior
+  std::string base;         // flag variants: name of the base scenario, used in the finding keys (empty = calc)
+  bool ownNames = false;    // flag variants: the documented outputs are derived from the flags (names below)
+  std::vector<std::string> names;
+  std::string key() const { return base.empty() ? calc : base; }
+  const std::vector<std::string>* expected() const;
 };
 static std::vector<Scenario> SC;
 
@@ -109,7 +114,15 @@ static Db* data2d(int nvar = 1)
   std::vector<std::vector<double>> z;
   z.push_back({1.5, 2.25, 0.75, 3.5, 2., 1.25});
   if (nvar > 1) z.push_back({0.5, 1.25, 2.75, 1.5, 3., 2.25});
+  if (nvar > 2) z.push_back({2.5, 0.25, 1.75, 2., 0.5, 3.25});
   return make_db_xz({{0.25, 1.75, 0.5, 1.5, 1.25, 0.75}, {0.5, 0.25, 1.5, 1.75, 1., 2.25}}, z);
+}
+static Model* model_nvar(int nvar)
+{
+  if (nvar == 1) return Model::createFromParam(ECov::SPHERICAL, 4., 1.);
+  VectorDouble sills;
+  for (int i = 0; i < nvar; i++) for (int j = 0; j < nvar; j++) sills.push_back(std::pow(0.5, std::abs(i - j)));
+  return Model::createFromParam(ECov::SPHERICAL, 4., 1., 1., VectorDouble(), sills);
 }
 static DbGrid* grid2d(bool withZ = false)
 {
@@ -374,6 +387,12 @@ static const std::map<std::string, std::vector<std::string>>& expected_names()
   };
   return E;
 }
+const std::vector<std::string>* Scenario::expected() const
+{
+  if (ownNames) return &names;
+  auto it = expected_names().find(calc);
+  return it == expected_names().end() ? nullptr : &it->second;
+}
 static std::string exp_name(const std::string& e) { size_t p = e.find('|'); return p == std::string::npos ? e : e.substr(0, p); }
 static std::string exp_role(const std::string& e) { size_t p = e.find('|'); return p == std::string::npos ? std::string("") : e.substr(p + 1); }
 // calculators which accept the same data base as input and output
@@ -397,6 +416,143 @@ static bool is_dedup_of(const std::string& got, const std::string& e)
     i = j;
   }
   return true;
+}
+
+
+// ------------------------------------------------------------------------------------------------------------
+// flag variants: the full cross of the output-selection flags / option switches of the calculators which have some,
+// x nvar in {1,2,3} x neighbourhood kind; the documented outputs are DERIVED from the flags
+static std::vector<Scenario> SCF;
+static void build_flag_variants()
+{
+  auto addv = [](const std::string& base, const std::string& variant, std::function<void(World&)> b, std::function<int(World&)> f, const std::vector<std::string>& names) {
+    Scenario s{base + "[" + variant + "]", b, f, (int)names.size(), ""};
+    s.base = base; s.ownNames = true; s.names = names;
+    SCF.push_back(s);
+  };
+  auto vname = [](int i) { return "z" + std::to_string(i + 1); };
+  auto mkneigh = [](int kind) -> ANeigh* { return kind == 0 ? (ANeigh*)NeighUnique::create() : (ANeigh*)NeighMoving::create(false, 4, 10.); };
+  const char* NK[] = {"unique", "moving"};
+
+  // ---- xvalid: flag_xvalid_est x flag_xvalid_std in {-1,0,1}^2
+  for (int nvar = 1; nvar <= 3; nvar++)
+    for (int nk = 0; nk < 2; nk++)
+      for (int fe = -1; fe <= 1; fe++)
+        for (int fs = -1; fs <= 1; fs++)
+        {
+          if (fe == 0 && fs == 0) continue;  // nothing requested
+          std::vector<std::string> names;
+          for (int v = 0; v < nvar && fe != 0; v++) names.push_back("Xvalid." + vname(v) + (fe > 0 ? ".esterr" : ".estim") + "|Z" + std::to_string(v));
+          for (int v = 0; v < nvar && fs != 0; v++) names.push_back("Xvalid." + vname(v) + (fs > 0 ? ".stderr" : ".stdev"));
+          addv("xvalid", "nvar=" + std::to_string(nvar) + "," + NK[nk] + ",est=" + std::to_string(fe) + ",std=" + std::to_string(fs),
+               [nvar, nk, mkneigh](World& w) { w.dbin = data2d(nvar); w.dbout = w.dbin; w.model = model_nvar(nvar); w.neigh = mkneigh(nk); },
+               [fe, fs](World& w) { return xvalid(w.dbin, w.model, w.neigh, false, fe, fs); }, names);
+        }
+  // ---- kriging: flag_est x flag_std x flag_varz (at least one)
+  for (int nvar = 1; nvar <= 3; nvar++)
+    for (int nk = 0; nk < 2; nk++)
+      for (int fl = 1; fl < 8; fl++)
+      {
+        bool fe = fl & 1, fs = fl & 2, fv = fl & 4;
+        std::vector<std::string> names;
+        // the outputs renamed last take the Z roles: estim, else stdev, else varz
+        for (int v = 0; v < nvar && fe; v++) names.push_back("Kriging." + vname(v) + ".estim|Z" + std::to_string(v));
+        for (int v = 0; v < nvar && fs; v++) names.push_back("Kriging." + vname(v) + ".stdev" + (fe ? "" : "|Z" + std::to_string(v)));
+        for (int v = 0; v < nvar && fv; v++) names.push_back("Kriging." + vname(v) + ".varz" + (fe || fs ? "" : "|Z" + std::to_string(v)));
+        addv("kriging", "nvar=" + std::to_string(nvar) + "," + NK[nk] + ",est=" + std::to_string(fe) + ",std=" + std::to_string(fs) + ",varz=" + std::to_string(fv),
+             [nvar, nk, mkneigh](World& w) { w.dbin = data2d(nvar); w.dbout = targets2d(); w.model = model_nvar(nvar); w.neigh = mkneigh(nk); },
+             [fe, fs, fv](World& w) { return kriging(w.dbin, w.dbout, w.model, w.neigh, EKrigOpt::POINT, fe, fs, fv); }, names);
+      }
+  // ---- krigcell / kribayes: flag_est x flag_std
+  for (int nvar = 1; nvar <= 2; nvar++)
+    for (int fl = 1; fl < 4; fl++)
+    {
+      bool fe = fl & 1, fs = fl & 2;
+      for (int which = 0; which < 2; which++)
+      {
+        std::string pre = which == 0 ? "KrigCell." : "Bayes.";
+        std::vector<std::string> names;
+        for (int v = 0; v < nvar && fe; v++) names.push_back(pre + vname(v) + ".estim|Z" + std::to_string(v));
+        for (int v = 0; v < nvar && fs; v++) names.push_back(pre + vname(v) + ".stdev" + (fe ? "" : "|Z" + std::to_string(v)));
+        std::string var = "nvar=" + std::to_string(nvar) + ",est=" + std::to_string(fe) + ",std=" + std::to_string(fs);
+        if (which == 0)
+          addv("krigcell", var, [nvar](World& w) { w.dbin = data2d(nvar); w.dbout = grid2d(); w.model = model_nvar(nvar); w.neigh = NeighUnique::create(); },
+               [fe, fs](World& w) { return krigcell(w.dbin, w.dbout, w.model, w.neigh, fe, fs, {2, 2}); }, names);
+        else if (nvar == 1)
+          addv("kribayes", var, [](World& w) { w.dbin = data2d(); w.dbout = grid2d(); w.model = model_drift(); w.neigh = NeighUnique::create(); },
+               [fe, fs](World& w) { MatrixSquareSymmetric c(1); c.setValue(0, 0, 1.); return kribayes(w.dbin, w.dbout, w.model, w.neigh, {1.}, c, fe, fs); }, names);
+      }
+    }
+  // ---- krigtest: target rank
+  for (int nvar = 1; nvar <= 2; nvar++)
+    for (int iech0 : {0, 1, 8})
+      addv("krigtest", "nvar=" + std::to_string(nvar) + ",iech0=" + std::to_string(iech0),
+           [nvar](World& w) { w.dbin = data2d(nvar); w.dbout = grid2d(); w.model = model_nvar(nvar); w.neigh = NeighUnique::create(); },
+           [iech0](World& w) { Krigtest_Res r = krigtest(w.dbin, w.dbout, w.model, w.neigh, iech0, EKrigOpt::POINT, VectorInt(), false, false); return NOSTATUS; }, {});
+  // ---- simtub: nbsimu x nvar, conditional or not
+  for (int nvar = 1; nvar <= 2; nvar++)
+    for (int nbsimu = 1; nbsimu <= 3; nbsimu++)
+      for (int cond = 0; cond < 2; cond++)
+      {
+        std::vector<std::string> names;
+        int k = 0;
+        // documented order: simulations of variable 1, then of variable 2 ; without data base the variable has no name
+        for (int v = 0; v < nvar; v++)
+          for (int is = 0; is < nbsimu; is++, k++)
+          {
+            std::string n = "Simu.";
+            if (cond) n += vname(v) + ".";
+            else if (nvar > 1) n += std::to_string(v + 1) + ".";
+            // NamingConvention: the rank is appended only when there are several items
+            if (nbsimu > 1) n += std::to_string(is + 1); else n.pop_back();
+            names.push_back(n + "|Z" + std::to_string(k));
+          }
+        addv(cond ? "simtub-cond" : "simtub-nc", "nvar=" + std::to_string(nvar) + ",nbsimu=" + std::to_string(nbsimu),
+             [nvar, cond](World& w) { if (cond) { w.dbin = data2d(nvar); w.neigh = NeighUnique::create(); } w.dbout = grid2d(); w.model = model_nvar(nvar); },
+             [nbsimu](World& w) { return simtub(w.dbin, w.dbout, w.model, w.neigh, nbsimu, 4321, 20); }, names);
+      }
+  // ---- dbStatisticsOnGrid: operators x nvar x radius
+  {
+    std::vector<std::pair<std::string, EStatOption>> opers = {{"NUM", EStatOption::NUM}, {"MEAN", EStatOption::MEAN}, {"VAR", EStatOption::VAR}, {"STDV", EStatOption::STDV},
+                                                               {"MINI", EStatOption::MINI}, {"MAXI", EStatOption::MAXI}, {"SUM", EStatOption::SUM}, {"MEDIAN", EStatOption::MEDIAN}};
+    for (int nvar = 1; nvar <= 2; nvar++)
+      for (auto& op : opers)
+        for (int radius : {0, 1})
+        {
+          std::vector<std::string> names;
+          for (int v = 0; v < nvar; v++) names.push_back("Stats." + vname(v) + "|Z" + std::to_string(v));
+          EStatOption oper = op.second;
+          addv("dbStatisticsOnGrid", "nvar=" + std::to_string(nvar) + "," + op.first + ",radius=" + std::to_string(radius),
+               [nvar](World& w) { w.dbin = data2d(nvar); w.dbout = grid2d(); },
+               [oper, radius](World& w) { return dbStatisticsOnGrid(w.dbin, dynamic_cast<DbGrid*>(w.dbout), oper, radius); }, names);
+        }
+  }
+  // ---- migrate: dist_type x flag_fill x flag_inter x flag_ball, both directions
+  for (int dir = 0; dir < 2; dir++)
+    for (int dt : {1, 2})
+      for (int fl = 0; fl < 8; fl++)
+      {
+        bool ff = fl & 1, fi = fl & 2, fb = fl & 4;
+        addv("migrate", std::string(dir ? "points->grid" : "grid->points") + ",dist_type=" + std::to_string(dt) + ",fill=" + std::to_string(ff) + ",inter=" + std::to_string(fi) + ",ball=" + std::to_string(fb),
+             [dir](World& w) { if (dir) { w.dbin = data2d(); w.dbout = grid2d(); } else { w.dbin = grid2d(true); w.dbout = targets2d(); } },
+             [dt, ff, fi, fb](World& w) { return migrate(w.dbin, w.dbout, "z1", dt, VectorDouble(), ff, fi, fb); }, {"Migrate|Z0"});
+      }
+  // ---- DisjunctiveKriging: selectivity flags
+  for (int fl = 1; fl < 4; fl++)
+  {
+    bool fe = fl & 1, fs = fl & 2;
+    std::vector<std::string> names;
+    for (const char* q : {"T", "Q"})
+    {
+      for (const char* c : {"0", "1.5"}) if (fe) names.push_back(std::string("DK.") + q + "-estim-" + c + "|?");
+      for (const char* c : {"0", "1.5"}) if (fs) names.push_back(std::string("DK.") + q + "-stdev-" + c + "|?");
+    }
+    std::vector<double> g9 = {-1., -0.5, 0., 0.5, 1., 0.25, -0.25, 0.75, -0.75}, s9 = {0.5, 0.6, 0.7, 0.4, 0.5, 0.6, 0.7, 0.4, 0.5};
+    addv("DisjunctiveKriging", "sel_est=" + std::to_string(fe) + ",sel_std=" + std::to_string(fs),
+         [g9, s9, fe, fs](World& w) { w.dbout = grid_with({"F.1.estim", "F.2.estim", "F.1.stdev", "F.2.stdev"}, {g9, g9, s9, s9}, {"z1", "z2", "", ""}); w.anam = fitted_anam();
+                                      w.sel = Selectivity::createByCodes({ESelectivity::Q, ESelectivity::T}, {0., 1.5}, fe, fs); },
+         [](World& w) { return DisjunctiveKriging(w.dbout, w.anam, w.sel, {"F.1.estim", "F.2.estim"}, {"F.1.stdev", "F.2.stdev"}); }, names);
+  }
 }
 
 // ------------------------------------------------------------------------------------------------------------
@@ -426,9 +582,9 @@ static bool apply_prior(int p, World& w, const Scenario& s)
   int no = w.dbout->getSampleNumber();
   if (p == 1)
   {
-    auto it = expected_names().find(s.calc);
-    if (it == expected_names().end() || it->second.empty()) return false;
-    for (auto& n : it->second) w.dbout->addColumnsByConstant(1, 42., exp_name(n), ELoc::UNKNOWN);
+    const std::vector<std::string>* en = s.expected();
+    if (en == nullptr || en->empty()) return false;
+    for (auto& n : *en) w.dbout->addColumnsByConstant(1, 42., exp_name(n), ELoc::UNKNOWN);
   }
   else if (p == 2)
   {
@@ -554,16 +710,16 @@ static void run_case(const Scenario& s, int prior, int fail, int sab, Report& R)
   std::string ctx = "calculator=" + s.calc + " prior=" + PRIOR_NAME[prior] + " fault=" + label + " return=" + std::to_string(ret);
 
   if (injected && ret == 0)
-    R.viol.push_back({"success-despite-fault:" + s.calc + ":" + label, ctx + " : the call reports success although a stage failed"});
+    R.viol.push_back({"success-despite-fault:" + s.key() + ":" + label, ctx + " : the call reports success although a stage failed"});
 
   if (failed)
   {
     R.exercised = true;
     bool clean = true;
-    if (ain != bin) { clean = false; R.viol.push_back({"rollback:" + s.calc + ":" + label, ctx + " : dbin differs after the reported failure:" + snapdiff(bin, ain)}); }
-    if (!same && aout != bout) { clean = false; R.viol.push_back({"rollback:" + s.calc + ":" + label, ctx + " : dbout differs after the reported failure:" + snapdiff(bout, aout)}); }
+    if (ain != bin) { clean = false; R.viol.push_back({"rollback:" + s.key() + ":" + label, ctx + " : dbin differs after the reported failure:" + snapdiff(bin, ain)}); }
+    if (!same && aout != bout) { clean = false; R.viol.push_back({"rollback:" + s.key() + ":" + label, ctx + " : dbout differs after the reported failure:" + snapdiff(bout, aout)}); }
     for (size_t k = 0; k < w.aux.size(); k++)
-      if (snap(w.aux[k]) != baux[k]) { clean = false; R.viol.push_back({"rollback:" + s.calc + ":" + label, ctx + " : the auxiliary input data base #" + std::to_string(k + 1) + " differs after the reported failure:" + snapdiff(baux[k], snap(w.aux[k]))}); }
+      if (snap(w.aux[k]) != baux[k]) { clean = false; R.viol.push_back({"rollback:" + s.key() + ":" + label, ctx + " : the auxiliary input data base #" + std::to_string(k + 1) + " differs after the reported failure:" + snapdiff(baux[k], snap(w.aux[k]))}); }
     R.outcomes.push_back(clean ? "failed-clean" : "failed-dirty");
     if (clean && injected)
     {
@@ -577,7 +733,7 @@ static void run_case(const Scenario& s, int prior, int fail, int sab, Report& R)
       bool auxsame = true;
       for (size_t k = 0; k < w.aux.size() && k < f.aux.size(); k++) if (snap_nouid(w.aux[k]) != snap_nouid(f.aux[k])) auxsame = false;
       if (r2 != r3 || !auxsame || snap_nouid(w.dbout) != snap_nouid(f.dbout) || snap_nouid(w.dbin) != snap_nouid(f.dbin))
-        R.viol.push_back({"reuse-after-failure:" + s.calc + ":" + label, ctx + " : repeating the call on the same objects returns " + std::to_string(r2) + " (fresh objects: " + std::to_string(r3) + ") or gives different data bases:" + snapdiff(snap_nouid(f.dbout), snap_nouid(w.dbout))});
+        R.viol.push_back({"reuse-after-failure:" + s.key() + ":" + label, ctx + " : repeating the call on the same objects returns " + std::to_string(r2) + " (fresh objects: " + std::to_string(r3) + ") or gives different data bases:" + snapdiff(snap_nouid(f.dbout), snap_nouid(w.dbout))});
       else R.outcomes.push_back("reuse-after-failure-identical");
       destroy(f);
     }
@@ -586,9 +742,9 @@ static void run_case(const Scenario& s, int prior, int fail, int sab, Report& R)
   {
     // success
     if (sab >= 0) R.exercised = true;
-    if (!same && ain != bin) R.viol.push_back({"success-changes-dbin:" + s.calc, ctx + " : the input data base differs after a successful call:" + snapdiff(bin, ain)});
+    if (!same && ain != bin) R.viol.push_back({"success-changes-dbin:" + s.key(), ctx + " : the input data base differs after a successful call:" + snapdiff(bin, ain)});
     for (size_t k = 0; k < w.aux.size(); k++)
-      if (snap(w.aux[k]) != baux[k]) R.viol.push_back({"success-changes-input:" + s.calc, ctx + " : the auxiliary (pure input) data base #" + std::to_string(k + 1) + " differs after a successful call:" + snapdiff(baux[k], snap(w.aux[k]))});
+      if (snap(w.aux[k]) != baux[k]) R.viol.push_back({"success-changes-input:" + s.key(), ctx + " : the auxiliary (pure input) data base #" + std::to_string(k + 1) + " differs after a successful call:" + snapdiff(baux[k], snap(w.aux[k]))});
     std::vector<ColInfo> c1 = columns(w.dbout);
     int kept = 0;
     for (auto& o : cout0)
@@ -598,14 +754,14 @@ static void run_case(const Scenario& s, int prior, int fail, int sab, Report& R)
         if (n.uid == o.uid)
         {
           found = true; kept++;
-          if (n.name != o.name) R.viol.push_back({"success-renames-old-column:" + s.calc, ctx + " : pre-existing column '" + o.name + "' of dbout is now called '" + n.name + "'"});
-          if (n.bits != o.bits) R.viol.push_back({"success-changes-old-values:" + s.calc, ctx + " : cells of the pre-existing column '" + o.name + "' of dbout changed"});
+          if (n.name != o.name) R.viol.push_back({"success-renames-old-column:" + s.key(), ctx + " : pre-existing column '" + o.name + "' of dbout is now called '" + n.name + "'"});
+          if (n.bits != o.bits) R.viol.push_back({"success-changes-old-values:" + s.key(), ctx + " : cells of the pre-existing column '" + o.name + "' of dbout changed"});
         }
-      if (!found) R.viol.push_back({"success-deletes-old-column:" + s.calc, ctx + " : pre-existing column '" + o.name + "' of dbout disappeared"});
+      if (!found) R.viol.push_back({"success-deletes-old-column:" + s.key(), ctx + " : pre-existing column '" + o.name + "' of dbout disappeared"});
     }
     int added = (int)c1.size() - kept;
-    auto itE = expected_names().find(s.calc);
-    if (sab < 0 && itE != expected_names().end())
+    const std::vector<std::string>* en = s.expected();
+    if (sab < 0 && en != nullptr)
     {
       // exactly the documented output variables, with the documented names, and nothing else
       std::vector<std::string> got, gotrole;
@@ -618,7 +774,7 @@ static void run_case(const Scenario& s, int prior, int fail, int sab, Report& R)
         ELoc lt; int li;
         gotrole.push_back(w.dbout->getLocatorByColIdx((int)ic, &lt, &li) ? std::string(lt.getKey()) + std::to_string(li) : std::string(""));
       }
-      std::vector<std::string> want = itE->second;
+      std::vector<std::string> want = *en;
       std::vector<char> used(got.size(), 0);
       bool ok = got.size() == want.size();
       std::string rolebad;
@@ -635,20 +791,20 @@ static void run_case(const Scenario& s, int prior, int fail, int sab, Report& R)
         if (!f) ok = false;
       }
       if (ok && !rolebad.empty())
-        R.viol.push_back({"success-output-roles:" + s.calc, ctx + " : roles of the output variables:" + rolebad});
+        R.viol.push_back({"success-output-roles:" + s.key(), ctx + " : roles of the output variables:" + rolebad});
       if (!ok)
       {
         std::string g, x;
         for (auto& n : got) g += " '" + n + "'";
         for (auto& n : want) x += " '" + exp_name(n) + "'";
-        std::string key = ret == NOSTATUS ? "rollback:" + s.calc + ":temporaries-after-success" : "success-output-names:" + s.calc;
+        std::string key = ret == NOSTATUS ? "rollback:" + s.key() + ":temporaries-after-success" : "success-output-names:" + s.key();
         R.viol.push_back({key, ctx + " : variables added to dbout:" + (g.empty() ? " (none)" : g) + " ; documented:" + (x.empty() ? " (none)" : x)});
       }
     }
     else if (sab < 0 && ret != NOSTATUS && added != s.expectedNew && s.expectedNew >= 0)
-      R.viol.push_back({"success-output-count:" + s.calc, ctx + " : " + std::to_string(added) + " variables were added to dbout, the documented number is " + std::to_string(s.expectedNew)});
+      R.viol.push_back({"success-output-count:" + s.key(), ctx + " : " + std::to_string(added) + " variables were added to dbout, the documented number is " + std::to_string(s.expectedNew)});
     if (sab >= 0 && ret == 0 && must_fail(sab, s.calc))
-      R.viol.push_back({"reports-success:" + s.calc + ":" + label, ctx + " : the library states that it cannot perform this calculation, yet the call returns the success status"});
+      R.viol.push_back({"reports-success:" + s.key() + ":" + label, ctx + " : the library states that it cannot perform this calculation, yet the call returns the success status"});
     R.outcomes.push_back(sab >= 0 ? "sabotaged-but-succeeded" : "succeeded");
   }
   if (fail == 0 && sab < 0) R.outcomes.push_back("fault-points-reached=" + std::to_string(g_calls));
@@ -675,7 +831,8 @@ static void run_forked(Ctx& C, uint64_t id, const Scenario& s, int prior, int fa
   if (!cr.clean() || cr.code != 0 || !complete)
   {
     std::string where = fail > 0 ? "fault#" + std::to_string(fail) : sab >= 0 ? std::string("natural:") + SAB_NAME[sab] : "none";
-    C.violation("crash:" + s.calc + ":" + where, ctx + " : the child process ended with " + cr.describe() + " instead of returning", kase);
+    if (fail == 0 && sab < 0 && !s.base.empty()) where = "baseline" + s.calc.substr(s.base.size());  // flag variant: the flag combination is the mechanism
+    C.violation("crash:" + s.key() + ":" + where, ctx + " : the child process ended with " + cr.describe() + " instead of returning", kase);
     C.outcome("crash-or-timeout");
     C.nontrivial(id);
     return;
@@ -704,6 +861,18 @@ VF_PART(inject)
   for_each_case(C, sp, [&](uint64_t id, const std::vector<int>& idx) { run_forked(C, id, SC[idx[0]], idx[1], idx[2], -1); });
 }
 
+// flag variants: the no-fault baseline for every variant x 3 priors; the fault plans only for every 5th variant
+VF_PART(flags)
+{
+  static const int PR[] = {0, 4, 6};
+  Space sp;
+  sp.axis("variant", (int)SCF.size()).axis("prior", 3).axis("fail", KMAX + 1);
+  for_each_case(C, sp, [&](uint64_t id, const std::vector<int>& idx) {
+    if (idx[2] > 0 && idx[0] % 5 != 0) { C.skip(); return; }
+    run_forked(C, id, SCF[idx[0]], PR[idx[1]], idx[2], -1);
+  });
+}
+
 VF_PART(natural)
 {
   Space sp;
@@ -716,7 +885,8 @@ int main(int argc, char** argv)
   if (getenv("C19_PROBE"))
   {
     // development aid: baseline of every scenario, library messages visible, prints status and the names added to dbout
-    build_scenarios(); build_scenarios2();
+    build_scenarios(); build_scenarios2(); build_flag_variants();
+    for (auto& v : SCF) SC.push_back(v);
     for (auto& s : SC)
     {
       if (argc > 1 && s.calc.find(argv[1]) == std::string::npos) continue;
@@ -737,5 +907,5 @@ int main(int argc, char** argv)
     }
     return 0;
   }
-  return run_main(argc, argv, [](Ctx&) { silence(); build_scenarios(); build_scenarios2(); });
+  return run_main(argc, argv, [](Ctx&) { silence(); build_scenarios(); build_scenarios2(); build_flag_variants(); });
 }
